@@ -141,6 +141,25 @@ func Catch(f func()) (p bool) {
 	return false
 }
 func PanicMsg() string { return lastPanic }
+
+// Terminates natively: f runs in its own goroutine under a 5 s watchdog (a stuck goroutine cannot be killed; it
+// is left behind and the test reports the failure)
+func Terminates(budget int, f func()) bool {
+	done := make(chan interface{}, 1)
+	go func() {
+		defer func() { done <- recover() }()
+		f()
+	}()
+	select {
+	case r := <-done:
+		if r != nil {
+			panic(r)
+		}
+		return true
+	case <-time.After(5 * time.Second):
+		return false
+	}
+}
 func ErrText(err error) string {
 	if err == nil {
 		return "<nil>"
